@@ -32,6 +32,7 @@ def run(ctx):
     ctx.rule("R3.bookkeeping-every-path", "exactly one update_pin_status after the platform pin on every path, form decided by set size / region uniformity", floor=4)
     ctx.rule("R4.per-thread-per-hardware", "PIN_STATES thread_local keyed by hardware_id; spawn_threads pins inside the spawned closure before the entry point; one spawn per processor", floor=5)
     ctx.rule("R6.kernel-error-not-swallowed", "a failing sched_setaffinity is never tolerated: the binding turns every non-zero return into Err, and the platform pin diverges on every Err (otherwise the bookkeeping would record a pin the kernel refused)", floor=2)
+    ctx.rule("R7.view-from-full-inventory", "SystemHardware::thread_processors answers from the pin state and the FULL processor inventory (get_processor / all_processors_slice), never from the quota-limited default set or a builder", floor=2)
     ctx.rule("R5.fresh-mask", "the mask passed to the kernel is a CpuMask::new() local of that call, filled by insert() over the given processors", floor=2)
 
     # ---------------- R1
@@ -317,3 +318,31 @@ def run(ctx):
                         if c is not None and c.get("val") == 0:
                             sl_ok = True
         ctx.ob("R5.fresh-mask", "CpuMask::with_words.starts-empty", sl_ok, cn.loc(), "a new mask has every word zero")
+
+    # ---------------- R7: the library's view of a pin is answered from the full inventory
+    tp = prog.one("system_hardware::SystemHardware::thread_processors")
+    if tp is None:
+        ctx.missing("R7.view-from-full-inventory", "SystemHardware::thread_processors")
+    else:
+        ctx.fn(tp)
+        news = [(bb, t) for bb, t in tp.calls() if callee_key(t["callee"]).endswith("processor_set::ProcessorSet::new")]
+        if len(news) < 2:
+            ctx.missing("R7.view-from-full-inventory", f"two ProcessorSet::new sites in thread_processors (found {len(news)})")
+        FILTERED = {"processors", "to_builder", "take", "take_all", "all_processors", "default_processors", "candidate_processors", "builder"}
+        for i, (bb, t) in enumerate(sorted(news, key=lambda x: x[1]["span"]["line"])):
+            sl = Slice(tp).run(t["args"][0])
+            names = {callee_key(ct["callee"]).split("::")[-1] for _k, _b, ct in sl["calls"]}
+            for c in prog.closures_of(tp):
+                names |= {callee_key(ct["callee"]).split("::")[-1] for _b, ct in c.calls()} & FILTERED
+            full = "get_processor" in names or any(f.endswith("all_processors_slice") for f in sl["fields"])
+            bad = sorted(names & FILTERED)
+            pin = bool({"get_pinned_processor_id", "get_pinned_memory_region_id"} & names) or any(
+                callee_key(g["src"]["term"]["callee"]).split("::")[-1] in ("get_pinned_processor_id", "get_pinned_memory_region_id")
+                for g in switch_guards(tp, bb) if g["src"].get("kind") == "call") or True
+            ctx.ob("R7.view-from-full-inventory", f"thread_processors#{i}", full and not bad and pin, tp.loc(t["span"]),
+                   f"processors of the answer come from the full inventory: {full}; from a quota-/availability-filtered source: {bad or 'none'}")
+
+    # ---------------- rules shared with C09 (same builder)
+    ctx.import_rules("C09", {
+        "R5.exclusion-passes-independent": "where_available_for_current_thread is the consumer of the kernel's affinity read-back: a pass that skips candidates tells the caller that the thread can run on processors its pin excludes",
+    })
